@@ -57,6 +57,18 @@ var fineBars = [][5]float64{
 	{7, 7, 2, 2, 5},
 }
 
+// microBars: the first bars of sigmaBars with all four prices multiplied by 2^-40 (volumes untouched).
+var microBars = func() [][5]float64 {
+	out := make([][5]float64, len(sigmaBars))
+	for i, r := range sigmaBars {
+		out[i] = r
+		for f := 0; f < 4; f++ {
+			out[i][f] *= 1.0 / (1 << 40)
+		}
+	}
+	return out
+}()
+
 func rowsOf(word []int) [][5]float64 {
 	rows := make([][5]float64, len(word))
 	for i, s := range word {
@@ -263,6 +275,10 @@ func stratTrieUnit(c *core.Ctx, e *cat.Strat, cfg []float64, prop string) {
 		// second pass over the fine-difference bars (three symbols plus one ordinary bar)
 		rowsSrc = fineBars
 		walkWords(min(k, len(fineBars)), n, visit)
+		// third pass: the ordinary bars quoted in a unit 2^40 times larger (prices around 5e-12): the documented rules
+		// compare prices with prices, so nothing in them knows an absolute size
+		rowsSrc = microBars
+		walkWords(min(k, 4), n, visit)
 		rowsSrc = sigmaBars
 	}
 	// one long series on top of the trie (see indTrieUnit): a de Bruijn series over the five bars with positive range
@@ -311,6 +327,16 @@ func stratUnits(prop string) func(tier string) []core.Unit {
 			for _, cfg := range e.Cfgs(tier == "thorough") {
 				cfg := cfg
 				us = append(us, core.Unit{Key: e.Name + fmtCfg(cfg), Cost: 2 + e.Warm(cfg), Run: func(c *core.Ctx) { stratTrieUnit(c, e, cfg, prop) }})
+			}
+			// the same with every smoothing constant of the strategy's indicators off its default (see smoothing.go)
+			if v := smoothedStrat(e); v != nil && prop == "C06" {
+				for i, cfg := range e.Cfgs(tier == "thorough") {
+					cfg := cfg
+					if tier != "thorough" && i%2 == 1 {
+						continue
+					}
+					us = append(us, core.Unit{Key: v.Name + fmtCfg(cfg), Cost: 2 + e.Warm(cfg), Run: withSmoothing(func(c *core.Ctx) { stratTrieUnit(c, v, cfg, prop) })})
+				}
 			}
 		}
 		return us
